@@ -196,7 +196,7 @@ def dense_value(rng, ir, t, depth=3):
         return [dense_value(rng, ir, t['array'], depth - 1) for _ in range(rng.randint(1, 2))]
     if 'seq' in t:
         mx = 2 if t['max'] == 'unbounded' else min(2, t['max'])
-        return [dense_value(rng, ir, t['seq'], depth - 1) for _ in range(max(1, mx))]
+        return [dense_value(rng, ir, t['seq'], depth - 1) for _ in range(max(1, mx, t.get('min_occurs', 0)))]
     if 'attr' in t:
         return dense_value(rng, ir, t['attr'], depth)
     if 'xmldata' in t:
@@ -222,6 +222,8 @@ def slots(ir, t, v, path=(), position='top'):
         yield path, t, position + ':object'
         for fn, ft in gen.all_fields(ir, v.get('__class__', t['ref'])):
             if 'seq' in ft:
+                if 'choice' in ft and v.get(fn) is None:
+                    continue          # a member of a choice group that another member was chosen for: no slot to fill
                 yield path + (fn,), ft, 'seq'
                 for i, it in enumerate(v.get(fn) or []):
                     for s in slots(ir, ft['seq'], it, path + (fn, i), 'seq_member'):
@@ -284,7 +286,8 @@ def boundary_values(rng, t, exhaustive8=False, lexical=True):
         return out
     if 'seq' in t:
         mx = t['max']
-        counts = [0, 1, 2] if mx == 'unbounded' else sorted(set([0, 1, mx - 1, mx, mx + 1, mx + 2]))
+        mn = t.get('min_occurs', 0)
+        counts = sorted(set([0, 1, 2, mn - 1, mn, mn + 1])) if mx == 'unbounded' else sorted(set([0, 1, mn - 1, mn, mx - 1, mx, mx + 1, mx + 2]))
         for c in counts:
             if c >= 0:
                 out.append((('COUNT', c), 'count_%d' % c))
